@@ -88,4 +88,7 @@ func genericPack(c *Ctx) {
 	ruleWriteSwallow(c, "G-WRITE-SWALLOW", pkgs, 0)
 	ruleRangeKey(c, "G-RANGE-KEY-AS-ELEMENT", pkgs)
 	ruleMapAppendKey(c, "G-MAP-APPEND-KEY", pkgs)
+	ruleTrimCutset(c, "G-TRIM-CUTSET", pkgs)
+	ruleFirstDecides(c, "G-FIRST-DECIDES", pkgs)
+	ruleFormatData(c, "G-FORMAT-DATA", pkgs)
 }
